@@ -16,8 +16,8 @@
      (W)  the history did not go through the check-then-act windows commit (F20/F21) or sdlag (F37)
           ([W_C12] = w_commit || w_sdlag; the other five window flags are NOT needed),
      (S)  [c12_side]: every stop execution that concluded "Pending" (stop_pending) was about an instance whose
-          command had never been launched and did not run on that instance's own goroutine, and no new instance
-          re-used an id of the snapshot of a shutdown in progress  (decidable, evaluated on the history),
+          command had never been launched and did not run on that instance's own goroutine
+          (decidable, evaluated on the history; it fails only inside the dup/zombie anomalies F25/F38),
      (N)  [c12_noforeign]: no stop signal to a member of the snapshot of a shutdown in progress was issued by a
           thread other than a worker of that shutdown (a thread that passed ordered_go for that instance).
    [C12_workers] is the same without (N) for the monitor restricted to the signals of the shutdown's own
